@@ -76,6 +76,11 @@ class Walk:
             for x in list(stale):
                 if ob['nodes'][x][0] or ob['nodes'][x][1] or x not in ob['que']:
                     del stale[x]
+                elif k == 'rep' and ev[2] == x and not [o for o in ob['outs'] if o[0] == 6]:
+                    # complete() ran for this very node and left its empty
+                    # entry queued: not what the open findings describe (those
+                    # entries are removed by the node's next completion)
+                    stale[x] = 'survived-own-completion'
             for x in ob['que']:
                 if not ob['nodes'][x][0] and not ob['nodes'][x][1] and x not in stale:
                     if k == 'rep' and ev[5] != 3:
